@@ -309,6 +309,8 @@ def gen_history(seed, tier, classes=None, weights=None, n_ops=(6, 16),
       p["m"] = r.choice([2, 4, 5, 6])
       if r.random() < 0.4:
         p["far"] = r.choice([20, 30, 36])
+      elif r.random() < 0.3:
+        p["f32"] = True
     return p
 
   def methods(s):
